@@ -95,10 +95,12 @@ LeaveRule(x, F) ==
   LET n  == F.n
       x1 == IF Switches(n) THEN [x EXCEPT !.adepth = TopOf(x.asnaps), !.asnaps = ButLast(@)] ELSE x
       x2 == [x1 EXCEPT !.rstk = ButLast(@)]
-  IN IF x.ret = "fail" THEN Return(DropBuf(x2), "fail")
-     ELSE IF g[n].mod = "_" THEN Return(MergeBuf(x2), "ok")
-     ELSE LET ch == TopOf(x2.bufs)
-          IN Return(Emit1(DropBuf(x2), <<n, F.start, x2.pos, IF g[n].mod = "@" THEN Visible(ch) ELSE ch>>), "ok")
+      \* rule.py hides_children(): an atomic body hides its inner pairs (WHITESPACE / COMMENT bodies are atomic unless $)
+      x3 == IF x.ret = "ok" /\ (g[n].mod = "@" \/ (IsTrivia(n) /\ g[n].mod # "$"))
+            THEN [x2 EXCEPT !.bufs[Len(x2.bufs)] = Visible(@)] ELSE x2
+  IN IF x.ret = "fail" THEN Return(DropBuf(x3), "fail")
+     ELSE IF g[n].mod = "_" THEN Return(MergeBuf(x3), "ok")
+     ELSE Return(Emit1(DropBuf(x3), <<n, F.start, x3.pos, TopOf(x3.bufs)>>), "ok")
 
 \* ---- a terminal: succeeds moving pos by n, or fails touching nothing --------
 Term(x, ok, n) == IF ok THEN Return([x EXCEPT !.pos = @ + n], "ok") ELSE Return(x, "fail")
